@@ -131,7 +131,11 @@ def check(ctx):
                     if call_name(recv) == 'or_insert_with' and len(recv[2]) == 2 and recv[2][1][0] == 'fnref' and strip_generics(recv[2][1][1]).endswith('Vec::new'):
                         empty_ok = True
                     if empty_ok and a2[1] == share_t:
-                        alt = True
+                        # the push must happen for every share: from the entry call the next iteration is unreachable without it
+                        nexts2 = [bx for bx, cx, tx in cb.calls() if cx is not None and cx.name == 'next']
+                        wo = cb.reachable(ents[0][0], removed_blocks=[bi2])
+                        if not any(n in wo for n in nexts2):
+                            alt = True
             if alt:
                 pushes = ins_ok = True
             # every extracted share reaches the map: no conditional skip between extraction and entry (entry post-dominates the extraction success edge)
@@ -191,8 +195,14 @@ def check(ctx):
     errs = [(bi, si, strip_sites(t)) for bi, si, t in ret_defs(jtb) if t[0] == 'agg' and t[2] == 'Err']
     def is_invalid(t):
         return any(isinstance(x, tuple) and x and x[0] == 'agg' and x[2] == 'InvalidShares' for x in walk(t))
-    if emp:
-        reach = reach_under(j, jtb, {emp[0]: True})
+    # the input length is the atom: `is_empty()`, `first()` being None, `len() == 0`, a slice pattern all follow from it
+    env0 = {e: True for e in emp}
+    env0[('len', P1)] = 0
+    env1 = {e: False for e in emp}
+    env1[('len', P1)] = 1
+    decided = comb and (comb[0][0] not in reach_under(j, jtb, env0)) and (comb[0][0] in reach_under(j, jtb, env1))
+    if decided:
+        reach = reach_under(j, jtb, env0)
         outs = [t for bi, si, t in errs if bi in reach]
         okr = [1 for bi, si, t in oks if bi in reach]
         if outs and all(is_invalid(t) for t in outs) and not okr and not any(c[0] in reach for c in comb):
